@@ -173,7 +173,8 @@ pvf_read_header (SF_PRIVATE *psf)
 				return SFE_PVF_BAD_BITWIDTH ;
 		} ;
 
-	psf->dataoffset = psf_ftell (psf) ;
+	/* The file position can be ahead of the header (format detection reads 12 bytes). */
+	psf->dataoffset = psf->header.indx ;
 	psf_log_printf (psf, " Data Offset : %D\n", psf->dataoffset) ;
 
 	psf->endian = SF_ENDIAN_BIG ;
